@@ -419,6 +419,28 @@ def execute(scn):
                             viol.append({"oracle": "library-error-missing-from-stderr", "where": 0,
                                          "detail": {"path": p, "message": m[:200]}})
                             break
+                if scn["output"] == "plain" and fmt is None and not viol:
+                    # default --error-format: one line per error; a line equal to an expected record must occur
+                    # exactly as often as the library reports it (errors lost, repeated, or replayed from a
+                    # previous instance show up here)
+                    dfmt = "{error.instance}: {error.message}"
+                    want_lines = []
+                    for p in list(expected_msgs):
+                        c = classify(scn, p)
+                        if p == scn["schema_path"] or c[0] != "ok":
+                            continue
+                        resolver = V.RefResolver(base_uri=scn["base_uri"], referrer=schema) if scn["base_uri"] is not None else None
+                        for e in cls(schema, resolver=resolver).iter_errors(c[1]):
+                            want_lines.append(dfmt.format(error=e))
+                    got_lines = stderr.split("\n")
+                    if all("\n" not in w for w in want_lines):
+                        probe("default_format_lines_compared", len(want_lines))
+                        for w in sorted(set(want_lines)):
+                            if got_lines.count(w) != want_lines.count(w):
+                                viol.append({"oracle": "error-line-count-differs-from-library", "where": 0,
+                                             "detail": {"line": w[:200], "got": got_lines.count(w),
+                                                        "want": want_lines.count(w)}})
+                                break
             # (4) diagnostics: every unloadable path mentioned outside the records; no valid path mentioned
             for p in unloadable:
                 name = p
